@@ -29,6 +29,8 @@ func checkC05(c *Check) {
 	c.dialSingleResult("C05.2 dial-result")
 	c.checkSpawnJoin("C05.2 spawn-join")
 	c.readerHandoffRule("C05.2 reader-join")
+	c.rendezvousChannels("C05.2 rendezvous-channels")
+	c.registryLocked("C05.2 lock-released")
 	c.closeOnce("C05.1 close-once")
 	c.disableEnablePairing("C05.1 fsm-table-consistent")
 	_ = ssa.BuilderMode(0)
